@@ -258,7 +258,7 @@ def run_history(g, payload, hist, rename, acc, fam, shared=False):
 
 
 from ..families import NAMESPACE_NAMES as _NS_ALL
-NAMESPACE_NAMES = [n for n in _NS_ALL if n not in ("synth_return_block_1", "synth_head_block_1", "loop_region_1")]
+NAMESPACE_NAMES = [n for n in _NS_ALL if n not in ("synth_return_block_1", "synth_head_block_1", "loop_region_1") and not n.endswith(("_9", "_10"))]
 
 
 def _work(args):
